@@ -184,7 +184,8 @@ impl LangInterpreter for French {
                 b.marker = marker;
                 b.freeze();
             }
-        } else {
+        } else if !(matches!(status, Err(Error::Incomplete)) && blocked == Excludable::UN_SIX) {
+            // "et" does not lift the block that follows "dix": "dix et quatre" is not 14
             b.flags = 0
         }
         status
